@@ -50,7 +50,6 @@ theorem peel_invariant (g : Graph) (topo : List Node) (n : Nat) :
         rw [peeledSum_snoc] at this
         unfold subtractPath at this
         grind
-    | keyError => rw [hm] at h; simp at h
     | stuck => rw [hm] at h; simp at h
 
 theorem decompose_invariant (g : Graph) (f : Edge → Rat) (topo : List Node) (htopo : IsTopo g.edges topo)
@@ -73,6 +72,6 @@ theorem decompose_invariant (g : Graph) (f : Edge → Rat) (topo : List Node) (h
     exact ⟨this.2.1, this.1⟩
   · have := maxBottleneckPath_spec g r.residual topo htopo
     rw [h3] at this
-    exact this.1
+    exact this.none_le
 
 end FP
